@@ -287,8 +287,9 @@ def arg_mutator(detector, lst=None, tag=None):
 def array_arg_mutator(detector, arr=None, tag=None):
     """A model that works in place on an ndarray-valued argument (e.g. `response *= gain`); only the Python API can configure one."""
     if arr is not None:
-        detector.pixel.array = detector.pixel.array + float(np.sum(arr))
-        arr *= 2.0
+        a = np.asarray(arr, dtype=float)  # (a common idiom: no copy when the argument already is a float array)
+        detector.pixel.array = detector.pixel.array + float(np.sum(a))
+        a *= 2.0
 
 
 def const_image(detector, value=7):
